@@ -647,3 +647,51 @@ def _rand(*size, **kw):
 
 
 TF["rand"] = _rand
+
+
+# ---- nonzero: only the row-wise enumeration idiom  x.nonzero(as_tuple=True)[1].view(B, -1)  on a 2-D tensor
+class NonzeroCols:
+    """Column indices of the non-zero entries of a [B, N] tensor in row-major order (torch.nonzero contract).
+    Usable only through .view(B, -1): requires every row to hold the same number c of non-zeros (WF obligation);
+    then result[b, k] is the k-th smallest non-zero column of row b."""
+
+    def __init__(self, src):
+        self.src = src
+
+    def view(self, *sizes):
+        ctx = cur()
+        sizes = ops._shape_args(sizes)
+        src = self.src
+        B, N = src.shape
+        if len(sizes) != 2 or not ctx.same(sizes[0], B) or not (isinstance(sizes[1], int) and sizes[1] == -1):
+            raise Unsupported("nonzero(...)[1] is only modelled under .view(batch, -1)")
+        ss = src.snap()
+        nzi = ew(lambda x: z3.If(zbool(x), z3.IntVal(1), z3.IntVal(0)), [src], out_dtype="i", compute=None)
+        cnt = reduce("sum", nzi, -1, label="nzcount")
+        c = simp_int(cnt.at(0)) if isinstance(B, int) or True else None
+        # all rows must have the same count, otherwise the [B, -1] view mixes rows (or raises)
+        ops.wf_forall((B,), lambda I: zint(cnt.at(I[0])) == zint(cnt.at(0)), "nonzero-view-equal-counts-per-row")
+        cdim = z3.Int(f"nzc!{next(ctx.fresh_ids)}")
+        ctx.assume(z3.And(cdim == zint(cnt.at(0)), cdim >= 0))
+        f = z3.Function(f"nz!{next(ctx.fresh_ids)}", z3.IntSort(), z3.IntSort(), z3.IntSort())
+        b, k, k2, i = z3.Ints("nzb nzk nzk2 nzi")
+        inb = z3.And(b >= 0, b < zint(B))
+        # enumeration contract of torch.nonzero (row-major order): in range, non-zero, strictly increasing, complete
+        ctx.assume(z3.ForAll([b, k], z3.Implies(z3.And(inb, k >= 0, k < cdim),
+                                               z3.And(f(b, k) >= 0, f(b, k) < zint(N), zbool(ss((b, f(b, k)))))), patterns=[f(b, k)]))
+        ctx.assume(z3.ForAll([b, k, k2], z3.Implies(z3.And(inb, k >= 0, k < k2, k2 < cdim), f(b, k) < f(b, k2)), patterns=[z3.MultiPattern(f(b, k), f(b, k2))]))
+        w = z3.Function(f"nzinv!{next(ctx.fresh_ids)}", z3.IntSort(), z3.IntSort(), z3.IntSort())
+        ctx.assume(z3.ForAll([b, i], z3.Implies(z3.And(inb, i >= 0, i < zint(N), zbool(ss((b, i)))),
+                                               z3.And(w(b, i) >= 0, w(b, i) < cdim, f(b, w(b, i)) == i))))
+        ctx.notes.append("assumed contract of torch.nonzero: row-major enumeration (in range, non-zero, increasing, complete)")
+        return mk((B, cdim), "i", lambda I: f(zint(I[0]), zint(I[1])))
+
+
+def _nonzero(t, as_tuple=False):
+    if not as_tuple or t.rank != 2:
+        raise Unsupported("nonzero (only the 2-D as_tuple=True row enumeration idiom is modelled)")
+    return (None, NonzeroCols(t))
+
+
+TM["nonzero"] = _nonzero
+TF["nonzero"] = _nonzero
